@@ -130,7 +130,9 @@ func c08StalledPeer(c *Ctx) {
 // reports StateActive → SetServing(true), and StateIdle after the response → SetServing(false)). While the request is
 // served nothing but the response reaches the socket; afterwards every event that was handed to WriteEvent (it returned
 // success) arrives exactly once, whole, in frames that authenticate in order.
-func c08QueuedEvents(c *Ctx) {
+func c08QueuedEvents(c *Ctx) { queuedEvents(c, "C08") }
+
+func queuedEvents(c *Ctx, who string) {
 	for i := 0; i < c.Pick(6, 60); i++ {
 		id := c.CaseID("queued-events", i)
 		if c.Skip(id) {
@@ -182,8 +184,8 @@ func c08QueuedEvents(c *Ctx) {
 			conn.SetServing(false)
 		}
 		wg.Wait()
-		conn.SetServing(true)
-		conn.SetServing(false) // nothing is being served: whatever was kept back goes out
+		// every WriteEvent has returned and no request is being served: everything is on the wire — a listening controller
+		// does not send another request to get the events that were kept back
 		in := map[string]interface{}{"event_writers": writers, "events_each": per, "requests_served_meanwhile": requests}
 		if duringServing != "" {
 			c.Violate("an event is written while a request of the connection is being served (between the request and its response)", id, in, "events are kept back until the response was written", duringServing)
@@ -206,7 +208,7 @@ func c08QueuedEvents(c *Ctx) {
 			}
 		}
 		if (missing > 0 || dup > 0) && failed == 0 {
-			c.Violate("an event handed to a connection while a request was being served is lost or duplicated", id, in,
+			c.Violate(who+": an event handed to a connection while a request was being served is lost, duplicated or kept back after the response", id, in,
 				fmt.Sprintf("%d events, each exactly once", writers*per), fmt.Sprintf("%d missing, %d duplicated", missing, dup))
 		}
 		c.Count(id, true, "stream:queued-events", fmt.Sprintf("queued-events:writers=%d", writers))
@@ -266,4 +268,70 @@ func c08EventInFlight(c *Ctx) {
 	conn.SetServing(false)
 	raw.Close()
 	c.Count(id, true, "stream:event-in-flight")
+}
+
+// eventDuringFlush: the response of a request has been written and the events that were kept back are being written out
+// (the first one is held inside the socket's Write: a slow controller) when a new event is reported. It must reach the
+// controller too — after the older ones, without waiting for the controller's next request.
+func eventDuringFlush(c *Ctx, who string) {
+	id := "event-during-flush#0"
+	if c.Skip(id) {
+		return
+	}
+	r := c.CaseRng("event-during-flush", 0)
+	raw := newHoConn()
+	ctx := hap.NewContextForSecuredDevice(nil)
+	conn := hap.NewConnection(raw, ctx)
+	var shared [32]byte
+	copy(shared[:], randBytes(r, 32))
+	sec, _ := crypto.NewSecureSessionFromSharedKey(shared)
+	ctx.GetSessionForConnection(raw).SetCryptographer(sec)
+	responseWritten(ctx, raw)
+	peer := newRefControllerSession(shared[:])
+	e1, e2 := []byte("EVENT/1.0 200 OK\r\nX: kept-back\r\n\r\n"), []byte("EVENT/1.0 200 OK\r\nX: reported-during-the-flush\r\n\r\n")
+	conn.SetServing(true)
+	conn.WriteEvent(e1)
+	conn.Write([]byte("HTTP/1.1 204 No Content\r\n\r\n"))
+	gate := make(chan struct{})
+	raw.mu.Lock()
+	raw.gate = gate
+	raw.mu.Unlock()
+	flushed, reported := make(chan struct{}), make(chan struct{})
+	go func() { defer close(flushed); conn.SetServing(false) }()
+	select {
+	case <-raw.entered:
+	case <-time.After(2 * time.Second):
+		c.Mismatch("event-during-flush", id, nil, "the kept-back event reaches the socket after the response", "it does not")
+		close(gate)
+		return
+	}
+	go func() { defer close(reported); conn.WriteEvent(e2) }()
+	time.Sleep(100 * time.Millisecond)
+	raw.mu.Lock()
+	raw.gate = nil
+	raw.mu.Unlock()
+	close(gate)
+	for _, ch := range []chan struct{}{flushed, reported} {
+		select {
+		case <-ch:
+		case <-time.After(3 * time.Second):
+			c.Violate(who+": reporting an event while kept-back events are written out blocks for good", id, nil, "both calls return", "blocked")
+			return
+		}
+	}
+	time.Sleep(20 * time.Millisecond)
+	raw.mu.Lock()
+	var wire []byte
+	for _, o := range raw.out {
+		wire = append(wire, o...)
+	}
+	raw.mu.Unlock()
+	pt, _, ok := peer.DecryptFrames(wire)
+	i1, i2 := bytes.Index(pt, e1), bytes.Index(pt, e2)
+	if !ok || i1 < 0 || i2 < i1 {
+		c.Violate(who+": an event handed to a connection while a request was being served is lost, duplicated or kept back after the response", id,
+			map[string]interface{}{"order": "request served; event 1 kept back; response; event 1 is being written (held); event 2 reported; event 1 completes"}, "event 1, then event 2, on the wire", fmt.Sprintf("authenticated=%v event1@%d event2@%d", ok, i1, i2))
+	}
+	raw.Close()
+	c.Count(id, true, "stream:event-during-flush")
 }
